@@ -3,8 +3,10 @@ package main
 import (
 	"bytes"
 	"fmt"
+	"io"
 	"math"
 	"os"
+	"strings"
 
 	"github.com/google/uuid"
 	"github.com/parquet-go/parquet-go"
@@ -28,7 +30,7 @@ func init() {
 		},
 		Batch: func(t string) int { return 75 },
 		Floors: []string{"values_encoded", "independent_decodes", "library_decodes", "shredded_files", "shredded_values_checked", "schema_exact", "schema_partial_or_mismatch", "schema_list", "schema_object", "read_convert_to_unshredded", "read_shredded_typed",
-			"read_raw_columns", "write_typed_buffer", "write_rows_deconstruct", "kind_object", "kind_array", "kind_decimal16", "kind_uuid", "kind_timestamp_ntz_nanos", "wide_objects_2byte_ids", "wide_array_in_wide_array", "strings_around_63", "marshal_roundtrips", "place_top", "place_repeated", "place_in_group", "place_optional", "optional_group_null", "schema_list_under_repeated", "write_go_values", "write_encoded_bytes", "typed_leaf_values_stored", "residual_values_stored"},
+			"read_raw_columns", "write_typed_buffer", "write_rows_deconstruct", "kind_object", "kind_array", "kind_decimal16", "kind_uuid", "kind_timestamp_ntz_nanos", "wide_objects_2byte_ids", "wide_array_in_wide_array", "strings_around_63", "marshal_roundtrips", "place_top", "place_repeated", "place_in_group", "place_optional", "optional_group_null", "schema_list_under_repeated", "write_go_values", "write_encoded_bytes", "write_column_writer_value", "write_column_writer_events", "read_variant_reader", "builder_encodes", "typed_leaf_values_stored", "residual_values_stored"},
 		Rule: "case = one of (a) a variant value tree over every primitive kind at boundary values (int widths at min/max, decimals 4/8/16 with scales, four timestamp flavours, strings of 0/63/64/65 bytes, binary, uuid), depth <= 4, objects with 0..40 fields incl. > 255 distinct keys, arrays of 0..300 elements: " +
 			"Encode, then an independent decoder written from VariantEncoding.md and the library's Decode must both return an equal tree; Marshal/Unmarshal of the Go form; (b) a (shredding schema, 6 values) pair: schema from the same pools (exact, partial, mismatching, nested list/object); written through GenericWriter, GenericBuffer+WriteRowGroup and WriteRows(Deconstruct); " +
 			"read back converted to unshredded (metadata,value), through the shredded schema, and by reassembling raw columns; every read must equal the written value under structural equality. Distinct = descriptor hash",
@@ -493,6 +495,24 @@ func c19Codec(c *Ctx, r *gen.Rand) {
 			return
 		}
 		c.Obs("library_decodes", 1)
+		// the streaming encoder (variant.Builder fed with events) must describe the same value
+		var sb variant.Builder
+		toLib(v).Write(&sb)
+		bmd, bval, err := sb.Finish()
+		if err != nil {
+			c.Fail("c19.builder", map[string]any{"kind": v.Kind}, "variant.Builder rejects the events of a valid value: %v", err)
+			return
+		}
+		bt, err := specreader.DecodeVariant(bmd, bval)
+		if err != nil {
+			c.Fail("c19.builder", map[string]any{"kind": v.Kind}, "an independent decoder rejects variant.Builder's output: %v", err)
+			return
+		}
+		if ok, d := specreader.VTEqual(v, bt); !ok {
+			c.Fail("c19.builder", map[string]any{"kind": v.Kind}, "variant.Builder's output decodes to a different value: %s", d)
+			return
+		}
+		c.Obs("builder_encodes", 1)
 		// Marshal / Unmarshal of the Go form
 		goVal := toLib(v).GoValue()
 		md, val, err := variant.Marshal(goVal)
@@ -609,8 +629,14 @@ func c19Shredding(c *Ctx, r *gen.Rand) {
 		}
 		rowVals = append(rowVals, vs)
 	}
-	writePath := []string{"typed_writer", "typed_buffer", "rows_deconstruct"}[(c.Case/3)%3]
+	writePath := []string{"typed_writer", "typed_buffer", "rows_deconstruct", "column_writer_value", "column_writer_events"}[(c.Case/3)%5]
+	if pl.rep > 0 && (writePath == "column_writer_value" || writePath == "column_writer_events") {
+		writePath = "typed_writer" // the streaming column writer has no notion of several variants per row
+	}
 	goForm := (c.Case/9)%2 == 1 // hand the writer Go values (map[string]any, int32, time.Time ...) instead of encoded bytes
+	if writePath == "column_writer_value" || writePath == "column_writer_events" {
+		goForm = false
+	}
 	c.D("part", "shredding")
 	c.D("schema", sd.String())
 	c.D("place", pl.name)
@@ -733,6 +759,47 @@ func c19Run[A, R any](c *Ctx, pl c19Place, shred parquet.Node, sd *c19Desc, rowV
 				return
 			}
 			c.Obs("write_typed_buffer", 1)
+		case "column_writer_value", "column_writer_events":
+			w := parquet.NewGenericWriter[A](buf, schema, parquet.PageBufferSize(gen.Pick(c.R, []int{64, 1024, 65536})))
+			vw, err := parquet.NewVariantColumnWriter(w, strings.Split(pl.prefix, ".")...)
+			if err != nil {
+				c.Fail("c19.shred_write", keys, "NewVariantColumnWriter(%s): %v (schema %s)", pl.prefix, err, sdesc)
+				return
+			}
+			cws := w.ColumnWriters()
+			for i, vs := range rowVals {
+				for _, path := range schema.Columns() {
+					if path[0] == strings.Split(pl.prefix, ".")[0] && (len(path) > 1 && path[len(strings.Split(pl.prefix, "."))-1] == "var") {
+						continue
+					}
+					lf, _ := schema.Lookup(path...)
+					if _, err := cws[lf.ColumnIndex].WriteRowValues([]parquet.Value{parquet.Int32Value(int32(i)).Level(0, 0, lf.ColumnIndex)}); err != nil {
+						c.Fail("c19.shred_write", keys, "ColumnWriter(%v).WriteRowValues: %v", path, err)
+						return
+					}
+				}
+				v := vs[0]
+				switch {
+				case v == nil:
+					err = vw.WriteNullRow()
+				case writePath == "column_writer_value":
+					err = vw.WriteValue(toLib(v))
+				default:
+					if err = vw.BeginRow(); err == nil {
+						toLib(v).Write(vw)
+						err = vw.EndRow()
+					}
+				}
+				if err != nil {
+					c.Fail("c19.shred_write", keys, "VariantColumnWriter row %d: %v (schema %s)", i, err, sdesc)
+					return
+				}
+			}
+			if err := w.Close(); err != nil {
+				c.Fail("c19.shred_write", keys, "Close: %v (schema %s)", err, sdesc)
+				return
+			}
+			c.Obs("write_"+writePath, 1)
 		default:
 			w := parquet.NewWriter(buf, schema)
 			for i := range rows {
@@ -903,6 +970,18 @@ func c19Run[A, R any](c *Ctx, pl c19Place, shred parquet.Node, sd *c19Desc, rowV
 			return
 		}
 		c.Obs("read_raw_columns", 1)
+		// read 4: the columnar cursor reader
+		if pl.rep == 0 {
+			got, err := c19CursorRead(data, sd, strings.Split(pl.prefix, "."), gen.Pick(c.R, []int{1, 2, 3, 100}))
+			if err != nil {
+				c.Fail("c19.shred_read", with("variant_reader"), "VariantReader: %v (schema %s)", err, sdesc)
+				return
+			}
+			if !check("variant_reader", rowVals, got) {
+				return
+			}
+			c.Obs("read_variant_reader", 1)
+		}
 		c.Obs("typed_leaf_values_stored", c19TypedLeaves)
 		c.Obs("residual_values_stored", c19ResidualValues)
 		for _, vs := range rowVals {
@@ -1275,6 +1354,192 @@ func c19RawRead(data []byte, d *c19Desc, pl c19Place) ([][]*specreader.VT, error
 			}
 			out[i] = append(out[i], v)
 		}
+	}
+	return out, nil
+}
+
+// ---- reading through the columnar cursor API (NewVariantReader)
+
+type c19Cur struct {
+	cur    *parquet.VariantCursor
+	d      *c19Desc
+	fields map[string]*c19Cur
+	elems  *c19Cur
+}
+
+// c19BuildCursors declares, before the first Next, every position of the shredding schema.
+func c19BuildCursors(cur *parquet.VariantCursor, d *c19Desc) *c19Cur {
+	n := &c19Cur{cur: cur, d: d}
+	switch d.Kind {
+	case "obj":
+		n.fields = map[string]*c19Cur{}
+		for _, name := range d.Names {
+			n.fields[name] = c19BuildCursors(cur.Field(name), d.Fields[name])
+		}
+	case "list":
+		n.elems = c19BuildCursors(cur.Elements(), d.Elem)
+	}
+	return n
+}
+
+// typedAt returns the typed scalar of entry e of a leaf cursor.
+func (n *c19Cur) typedAt(e int) (*specreader.VT, error) {
+	idx := -1
+	for i, r := range n.cur.TypedRows() {
+		if int(r) == e {
+			idx = i
+			break
+		}
+	}
+	if idx < 0 {
+		return nil, fmt.Errorf("entry %d is tagged typed but TypedRows does not list it", e)
+	}
+	t := &specreader.VT{Kind: n.d.Kind, Scale: n.d.Scale}
+	switch n.d.Kind {
+	case "bool":
+		if n.cur.Booleans()[idx] {
+			t.I = 1
+		}
+	case "int8", "int16", "int32", "date", "decimal4":
+		t.I = int64(n.cur.Int32s()[idx])
+	case "int64", "time", "timestamp", "timestamp_ntz", "timestamp_nanos", "timestamp_ntz_nanos", "decimal8":
+		t.I = n.cur.Int64s()[idx]
+	case "float":
+		t.Bits = uint64(math.Float32bits(n.cur.Floats()[idx]))
+	case "double":
+		t.Bits = math.Float64bits(n.cur.Doubles()[idx])
+	case "string":
+		slab, offs := n.cur.ByteArrays()
+		t.S = string(slab[offs[idx]:offs[idx+1]])
+	case "binary":
+		slab, offs := n.cur.ByteArrays()
+		t.B = append([]byte{}, slab[offs[idx]:offs[idx+1]]...)
+	case "uuid":
+		slab, size := n.cur.FixedLenByteArrays()
+		t.B = append([]byte{}, slab[idx*size:(idx+1)*size]...)
+	case "decimal16":
+		slab, size := n.cur.FixedLenByteArrays()
+		t.B = make([]byte, 16)
+		for i := 0; i < 16; i++ {
+			t.B[i] = slab[idx*size+15-i]
+		}
+	default:
+		return nil, fmt.Errorf("no typed accessor for %s", n.d.Kind)
+	}
+	return t, nil
+}
+
+// valueAt rebuilds the value of entry e from the location tags, typed vectors, residuals and child cursors.
+func (n *c19Cur) valueAt(e int) (*specreader.VT, error) {
+	locs := n.cur.Locs()
+	if e < 0 || e >= len(locs) {
+		return nil, fmt.Errorf("entry %d outside the window of %d entries", e, len(locs))
+	}
+	switch locs[e] {
+	case variant.LocMissing:
+		return nil, nil
+	case variant.LocNull:
+		return &specreader.VT{Kind: "null"}, nil
+	case variant.LocResidual:
+		v, ok, err := n.cur.Residual(e)
+		if err != nil {
+			return nil, err
+		}
+		if !ok {
+			return nil, fmt.Errorf("entry %d is tagged residual but has no residual value", e)
+		}
+		return fromLib(v), nil
+	case variant.LocTyped:
+		return n.typedAt(e)
+	case variant.LocTypedObject:
+		if n.d.Kind != "obj" {
+			return nil, fmt.Errorf("entry %d is tagged typed-object at a position shredded as %s", e, n.d.Kind)
+		}
+		o := &specreader.VT{Kind: "object", Fields: map[string]*specreader.VT{}}
+		for _, name := range n.d.Names {
+			fv, err := n.fields[name].valueAt(e)
+			if err != nil {
+				return nil, fmt.Errorf(".%s: %w", name, err)
+			}
+			if fv != nil {
+				o.Fields[name] = fv
+				o.Order = append(o.Order, name)
+			}
+		}
+		if rv, ok, err := n.cur.Residual(e); err != nil {
+			return nil, err
+		} else if ok {
+			rest := fromLib(rv)
+			if rest.Kind != "object" {
+				return nil, fmt.Errorf("the leftover of a partially shredded object is a %s", rest.Kind)
+			}
+			for name, fv := range rest.Fields {
+				if _, dup := o.Fields[name]; dup {
+					return nil, fmt.Errorf("field %q is in the shredded part and in the leftover", name)
+				}
+				o.Fields[name] = fv
+				o.Order = append(o.Order, name)
+			}
+		}
+		return o, nil
+	case variant.LocTypedList:
+		if n.d.Kind != "list" {
+			return nil, fmt.Errorf("entry %d is tagged typed-list at a position shredded as %s", e, n.d.Kind)
+		}
+		offs := n.cur.ListOffsets()
+		if e+1 >= len(offs) {
+			return nil, fmt.Errorf("ListOffsets has %d entries, entry %d needs %d", len(offs), e, e+2)
+		}
+		a := &specreader.VT{Kind: "array", Elems: []*specreader.VT{}}
+		for j := int(offs[e]); j < int(offs[e+1]); j++ {
+			ev, err := n.elems.valueAt(j)
+			if err != nil {
+				return nil, fmt.Errorf("[%d]: %w", j-int(offs[e]), err)
+			}
+			if ev == nil {
+				return nil, fmt.Errorf("[%d]: a list element is tagged missing", j-int(offs[e]))
+			}
+			a.Elems = append(a.Elems, ev)
+		}
+		return a, nil
+	}
+	return nil, fmt.Errorf("unknown location tag %v", locs[e])
+}
+
+func c19CursorRead(data []byte, d *c19Desc, path []string, window int) ([][]*specreader.VT, error) {
+	f, err := openBytes(data)
+	if err != nil {
+		return nil, err
+	}
+	var out [][]*specreader.VT
+	for _, rg := range f.RowGroups() {
+		vr, err := parquet.NewVariantReader(rg, path...)
+		if err != nil {
+			return nil, err
+		}
+		root := c19BuildCursors(vr.Root(), d)
+		for {
+			n, err := vr.Next(window)
+			for e := 0; e < n; e++ {
+				v, verr := root.valueAt(e)
+				if verr != nil {
+					vr.Close()
+					return nil, fmt.Errorf("row %d: %w", len(out), verr)
+				}
+				out = append(out, []*specreader.VT{v})
+			}
+			if err != nil {
+				if err == io.EOF {
+					break
+				}
+				vr.Close()
+				return nil, err
+			}
+			if n == 0 {
+				break
+			}
+		}
+		vr.Close()
 	}
 	return out, nil
 }
